@@ -5,7 +5,7 @@ import vlib
 import ledger_common as lc
 
 PID = "C06"
-CONSTS = {"Contents": "<- MCContents", "Encodings": '{"canon", "zero", "rev"}', "ThisChain": "1", "ThisNet": "1", "Window": "3", "MaxHeight": "7"}
+CONSTS = {"Contents": "<- MCContents", "Encodings": '{"canon", "zero", "rev", "altkey"}', "ThisChain": "1", "ThisNet": "1", "Window": "3", "MaxHeight": "7"}
 GUARDS = ["G_ReplayByContent", "G_ChainBound", "G_WindowBound"]
 
 
@@ -56,7 +56,7 @@ def main(tier):
             v.violation(key, "%s (variant %s, %d time(s); first: %s)" % (what[key.split(":")[0]], key.split(":")[1], len(items), json.dumps(items[0])), {"line": items[0]})
         offers = [x for x in recs if x["kind"] == "offer" and x["content"] >= 0]
         coverage = {"states": r.distinct, "transitions": r.generated, "exhaustive": True,
-                    "constants": {"contents": 5, "encodings": 3, "window": 3, "heights": "2..7"},
+                    "constants": {"contents": 5, "encodings": 4, "window": 3, "heights": "2..7"},
                     "traces_validated_against_impl": 1, "trace_lines": len(recs), "trace_lines_accepted": consumed,
                     "offers": len(offers), "variants": sorted({x["variant"] for x in offers}),
                     "violation_classes": {k: len(x) for k, x in classes.items()}, "known_findings_reproduced": [k for k, _ in v.known],
